@@ -332,6 +332,29 @@ func suiteStore(t *testing.T, cfg cfgT) {
 		for i := 0; i < n; i++ {
 			s.step(hr, bad)
 			steps++
+			if i == n/2 && hr.chance(1, 6) { // bulk patches: more than one chunk of inserts / deletes in one request
+				k := 101 + hr.intn(60)
+				var ins, del, insItems, delItems []string
+				for j := 0; j < k; j++ {
+					name := fmt.Sprintf("bulk%d", j)
+					s.pool.add(name)
+					u := "u1"
+					tu := &ketoapi.RelationTuple{Namespace: stNamespaces[0], Object: name, Relation: "r", SubjectID: &u}
+					tb, _ := json.Marshal(tu)
+					ins = append(ins, fmt.Sprintf(`{"action":"insert","relation_tuple":%s}`, tb))
+					insItems = append(insItems, "A "+hx("insert")+" "+fmtTuple(tu))
+					if j >= 2 {
+						del = append(del, fmt.Sprintf(`{"action":"delete","relation_tuple":%s}`, tb))
+						delItems = append(delItems, "A "+hx("delete")+" "+fmtTuple(tu))
+					}
+				}
+				code, _ := rest(s.e.write, "PATCH", "/admin/relation-tuples", []byte("["+strings.Join(ins, ",")+"]"))
+				out.emit(fmt.Sprintf("patch %d %s", len(ins), strings.Join(insItems, " ")), s.obs(code, ""))
+				code, _ = rest(s.e.write, "PATCH", "/admin/relation-tuples", []byte("["+strings.Join(del, ",")+"]"))
+				out.emit(fmt.Sprintf("patch %d %s", len(del), strings.Join(delItems, " ")), s.obs(code, ""))
+				out.stat("bulk")
+				steps += 2
+			}
 		}
 		s.e.close()
 		out.stat("histories")
